@@ -25,7 +25,6 @@ performs after each flush, then one clean flush.  Same oracle as B.
 from __future__ import annotations
 
 import itertools
-import json
 import logging
 import os
 import shutil
@@ -120,8 +119,20 @@ class _Sqlite3Proxy:
         return FaultConn(real, role)
 
 
+_CLOCK = [0]
+
+
+def _fake_now(*a, **kw):
+    """Deterministic stand-in for wallclock.get_current_time_string as used
+    by workflow_db_mgr (row values must not depend on the wall clock)."""
+    _CLOCK[0] += 1
+    return f'2000-01-01T00:{_CLOCK[0] // 60 % 60:02d}:{_CLOCK[0] % 60:02d}Z'
+
+
 def install():
     import cylc.flow.rundb as rundb
+    import cylc.flow.workflow_db_mgr as wdm
+    wdm.get_current_time_string = _fake_now
     if not isinstance(rundb.sqlite3, _Sqlite3Proxy):
         rundb.sqlite3 = _Sqlite3Proxy()
     from cylc.flow import LOG
@@ -310,6 +321,7 @@ class Comp:
         shutil.copyfile(env['tmpl'] / 'pri' / 'db', self.dir / 'pri' / 'db')
         self.pri = self.dir / 'pri' / 'db'
         self.pub = self.dir / 'pub' / 'db'
+        _CLOCK[0] = 100
         PATHS.clear()
         PATHS[os.path.realpath(self.pri)] = 'pri'
         PATHS[os.path.realpath(self.pub)] = 'pub'
@@ -789,6 +801,9 @@ def run(ctx: Ctx) -> Result:
         'task proxies / pool / scheduler are stubs carrying only what the '
         'put_* methods read; row values are not judged, only private-before '
         '= private-after and public = private',
+        'workflow_db_mgr.get_current_time_string is replaced by a '
+        'deterministic counter so that row values (and replays) do not depend'
+        ' on the wall clock',
         'public = private compares the rows of every table as multisets '
         '(rowids and row order are not content)',
     ])
